@@ -58,7 +58,26 @@ noisiest authorities insisted on its being received, for good or for evil, in th
         English,
         /// 0,1,..,255,0,1.. : every byte value equally often (incompressible for order-0 models)
         AllBytes,
+        /// (coverage audit) one 64-byte block, non-matching filler, the same block again exactly k bytes after its
+        /// first occurrence (n is ignored: the length is k + 64): the only LZ match has distance k
+        /// (k = 32767/32768/32769 straddle the 32 KiB window of both LZ coders)
+        FarRepeat,
+        /// (coverage audit, used by C02) the first n bytes of `big_corpus()` (128 KiB of distinct 16-byte records)
+        BigHead,
+        /// (coverage audit, used by C02) n bytes of `big_corpus()` starting at offset 70000, i.e. beyond the first 64 KiB
+        BigTail,
     }
+
+    /// 8192 distinct 16-byte records "<hhhhh|dddddddd>": 128 KiB in which every 16-byte window occurs once, so a
+    /// dictionary built from it has exactly one position for each record (positions >= 65536 for records >= 4096)
+    pub fn big_corpus() -> Vec<u8> {
+        let mut v = Vec::with_capacity(8192 * 16);
+        for i in 0..8192u64 {
+            v.extend_from_slice(format!("<{:05x}|{:08}>", i, (i * 2654435761) % 100_000_000).as_bytes());
+        }
+        v
+    }
+    pub const BIG_TAIL_OFFSET: usize = 70000;
 
     pub fn expand(shape: Sh, n: usize, k: usize) -> Vec<u8> {
         let e = |s: Shape| shaped(s, n, k);
@@ -111,6 +130,34 @@ noisiest authorities insisted on its being received, for good or for evil, in th
             }
             Sh::English => (0..n).map(|i| ENGLISH[i % ENGLISH.len()]).collect(),
             Sh::AllBytes => (0..n).map(|i| (i % 256) as u8).collect(),
+            Sh::FarRepeat => {
+                // block: xorshift bytes < 0x80; filler: xorshift bytes >= 0x80 (no byte of the filler occurs in the block)
+                let k = k.max(64);
+                let mut x: u64 = 0xD1B5_4A32_D192_ED03;
+                let mut next = move || {
+                    x ^= x << 13;
+                    x ^= x >> 7;
+                    x ^= x << 17;
+                    (x >> 24) as u8
+                };
+                let block: Vec<u8> = (0..64).map(|_| next() & 0x7F).collect();
+                let mut v = Vec::with_capacity(k + 64);
+                v.extend_from_slice(&block);
+                while v.len() < k {
+                    v.push(next() | 0x80);
+                }
+                v.extend_from_slice(&block);
+                v
+            }
+            Sh::BigHead => {
+                let c = big_corpus();
+                c[..n.min(c.len())].to_vec()
+            }
+            Sh::BigTail => {
+                let c = big_corpus();
+                let a = BIG_TAIL_OFFSET.min(c.len());
+                c[a..(a + n).min(c.len())].to_vec()
+            }
         }
     }
 
@@ -216,12 +263,13 @@ noisiest authorities insisted on its being received, for good or for evil, in th
     impl SpaceDef {
         pub fn describe(&self) -> String {
             format!(
-                "S = all strings over {{00,61,FF}} of length <= {} ({} strings); G = shapes {:?} x n in {:?} x k in {:?} (deduplicated by content)",
+                "S = all strings over {{00,61,FF}} of length <= {} ({} strings); G = shapes {:?} x n in {:?} x k in {:?} (deduplicated by content){}",
                 self.s_len,
                 (0..=self.s_len).map(|l| 3usize.pow(l as u32)).sum::<usize>(),
                 self.shapes,
                 self.ns,
-                self.ks
+                self.ks,
+                if self.shapes.contains(&Sh::FarRepeat) { "; FarRepeat: match distance k in [32767, 32768, 32769], length k+64" } else { "" }
             )
         }
 
@@ -238,8 +286,15 @@ noisiest authorities insisted on its being received, for good or for evil, in th
             for &n in &self.ns {
                 for &shape in &self.shapes {
                     let ks: &[usize] = match shape {
-                        Sh::Zero | Sh::Ones | Sh::CtxSkew | Sh::English | Sh::AllBytes => &[1],
+                        Sh::Zero | Sh::Ones | Sh::CtxSkew | Sh::English | Sh::AllBytes | Sh::BigHead | Sh::BigTail => &[1],
                         Sh::Period => &[1, 2, 3, 7, 8, 9, 10, 257, 258],
+                        // distance of the only match; n is ignored, so the shape is enumerated for one n only
+                        Sh::FarRepeat => {
+                            if n != self.ns[0] {
+                                continue;
+                            }
+                            &[32767, 32768, 32769]
+                        }
                         _ => &self.ks,
                     };
                     for &k in ks {
@@ -461,7 +516,11 @@ fn run_huffman(v: &str, x: &[u8], t: &[u8], _tr: Train) -> Outcome {
             let y = enc.encode(x).map_err(es)?;
             Ok((y, enc.tree().clone()))
         },
-        |y, tree| HuffmanDecoder::new(tree).decode(y, x.len()).map_err(es),
+        |y, tree| {
+            // "new+serialize": the decoder only gets the stored model (HuffmanTree::serialize -> deserialize)
+            let tree = if v == "new+serialize" { HuffmanTree::deserialize(&tree.serialize()).map_err(|e| format!("deserialize: {e}"))? } else { tree };
+            HuffmanDecoder::new(tree).decode(y, x.len()).map_err(es)
+        },
     )
 }
 
@@ -497,8 +556,14 @@ fn run_contextual(v: &str, x: &[u8], t: &[u8], _tr: Train) -> Outcome {
 
 fn run_interleaved(v: &str, x: &[u8], t: &[u8], _tr: Train) -> Outcome {
     let feat = generic_feature(x, t);
+    // "xN+serialize": decode_xN runs on the model rebuilt from ContextualHuffmanEncoder::serialize/deserialize
+    let full = v;
+    let (v, via_ser) = match v.strip_suffix("+serialize") {
+        Some(b) => (b, true),
+        None => (v, false),
+    };
     judge(
-        v,
+        full,
         x,
         &feat,
         || {
@@ -513,6 +578,7 @@ fn run_interleaved(v: &str, x: &[u8], t: &[u8], _tr: Train) -> Outcome {
             Ok((y, enc))
         },
         |y, enc| {
+            let enc = if via_ser { ContextualHuffmanEncoder::deserialize(&enc.serialize()).map_err(|e| format!("deserialize: {e}"))? } else { enc };
             match v {
                 "x1" => enc.decode_x1(y, x.len()),
                 "x2" => enc.decode_x2(y, x.len()),
@@ -582,6 +648,15 @@ fn fse_preset(name: &str) -> FseConfig {
         "high_compression/block=1024" => FseConfig { block_size: 1024, ..FseConfig::high_compression() },
         // ... and the default preset with `adaptive` off, so that a re-used encoder keeps the table of its first call
         "default/adaptive=false" => FseConfig { adaptive: false, ..FseConfig::default() },
+        // (coverage audit) block size 128: the grid straddles `len > 2 * block_size` (256/257), containers mix
+        // compressed (>= 100 byte) and stored (< 100 byte) blocks, and 8192/8193 straddle the 64-block limit
+        "high_compression/block=128" => FseConfig { block_size: 128, ..FseConfig::high_compression() },
+        // (coverage audit) the scalar frequency counter for inputs >= 64 bytes (the AVX2 counter runs otherwise)
+        "default/avx2=off" => {
+            let mut c = FseConfig::default();
+            c.hardware.avx2 = false;
+            c
+        }
         other => panic!("unknown preset {other}"),
     }
 }
@@ -692,6 +767,42 @@ fn run_fse(v: &str, x: &[u8], t: &[u8], _tr: Train) -> Outcome {
             ),
             if cfg.adaptive || t.is_empty() { freqs(x) } else { freqs(t) },
         ),
+        "+analyzed" => (
+            // the public two-step API: analyze_frequencies(training) builds the table, compress(payload) uses it
+            // (kept only when `adaptive == false`)
+            judge(
+                "",
+                x,
+                "",
+                || {
+                    let mut e = FseEncoder::new(c1).map_err(es)?;
+                    e.analyze_frequencies(t).map_err(es)?;
+                    Ok((e.compress(x).map_err(es)?, ()))
+                },
+                |y, _| FseDecoder::with_config(c2).map_err(es)?.decompress(y).map_err(es),
+            ),
+            if cfg.adaptive { freqs(x) } else { freqs(t) },
+        ),
+        "+reset" => (
+            // compress(training); reset(); compress(payload): nothing of the first call may survive the reset
+            judge(
+                "",
+                x,
+                "",
+                || {
+                    let mut e = FseEncoder::new(c1).map_err(es)?;
+                    let _ = e.compress(t).map_err(es)?;
+                    e.reset();
+                    Ok((e.compress(x).map_err(es)?, ()))
+                },
+                |y, _| {
+                    let mut d = FseDecoder::with_config(c2).map_err(es)?;
+                    d.reset();
+                    d.decompress(y).map_err(es)
+                },
+            ),
+            freqs(x),
+        ),
         "+dict" => (
             judge(
                 "",
@@ -718,11 +829,37 @@ fn lz_feature(x: &[u8], t: &[u8], tr: Train) -> String {
 }
 
 fn run_dictionary(v: &str, x: &[u8], t: &[u8], tr: Train) -> Outcome {
+    run_dictionary_inner(v, x, t, tr, false)
+}
+
+/// (coverage audit) same round trip; the pass class also says what the token stream contains, so that the evidence
+/// shows the match at distance 32767 / 32768 being taken and the one at 32769 being out of the window
+fn run_dictionary_window(v: &str, x: &[u8], t: &[u8], tr: Train) -> Outcome {
+    run_dictionary_inner(v, x, t, tr, true)
+}
+
+/// token stream of both LZ coders: 0,byte | 1,offset:u32le,length:u32le -> (number of matches, largest offset)
+fn lz_tokens(y: &[u8]) -> (usize, u32) {
+    let (mut i, mut m, mut far) = (0usize, 0usize, 0u32);
+    while i < y.len() {
+        if y[i] == 1 && i + 9 <= y.len() {
+            m += 1;
+            far = far.max(u32::from_le_bytes([y[i + 1], y[i + 2], y[i + 3], y[i + 4]]));
+            i += 9;
+        } else {
+            i += 2;
+        }
+    }
+    (m, far)
+}
+
+fn run_dictionary_inner(v: &str, x: &[u8], t: &[u8], tr: Train, show_tokens: bool) -> Outcome {
     let feat = lz_feature(x, t, tr);
     let (b, c) = v.split_once("/c[").expect("variant");
     let b = parse_nums(b.trim_start_matches("b[").trim_end_matches(']'));
     let c = parse_nums(c.trim_end_matches(']'));
-    judge(
+    let tokens = std::cell::Cell::new((0usize, 0u32));
+    let o = judge(
         v,
         x,
         &feat,
@@ -730,10 +867,18 @@ fn run_dictionary(v: &str, x: &[u8], t: &[u8], tr: Train) -> Outcome {
             let dict = DictionaryBuilder::new().min_match_length(b[0]).max_match_length(b[1]).max_entries(b[2]).window_size(b[3]).build(t);
             let dc = DictionaryCompressor::new(dict).min_match_length(c[0]).max_match_length(c[1]);
             let y = dc.compress(x).map_err(es)?;
+            tokens.set(lz_tokens(&y));
             Ok((y, dc))
         },
         |y, dc| dc.decompress(y).map_err(es),
-    )
+    );
+    match o {
+        Outcome::Pass { nontrivial, class } if show_tokens => {
+            let (m, far) = tokens.get();
+            Outcome::Pass { nontrivial, class: format!("{class}|matches={m}|max_offset={far}") }
+        }
+        o => o,
+    }
 }
 
 /// variant = "new" | "cfg[<min>,<max>,<window>]"
@@ -849,6 +994,34 @@ fn run_adaptive_parallel(v: &str, x: &[u8], _t: &[u8], _tr: Train) -> Outcome {
     )
 }
 
+/// (coverage audit) the same round trips for the large-input subjects; the pass class names the codec / stream count
+/// the selector picked, so that the evidence shows the x4, x8 and FSE branches being taken
+fn run_adaptive_parallel_large(v: &str, x: &[u8], t: &[u8], tr: Train) -> Outcome {
+    let chosen = if x.is_empty() {
+        "none".to_string()
+    } else {
+        match catch(AdaptiveParallelEncoder::new) {
+            Ok(Ok(a)) => {
+                let (alg, var) = a.select_optimal_encoding(x);
+                format!("{alg}-{var}")
+            }
+            _ => "construct_err".to_string(),
+        }
+    };
+    match run_adaptive_parallel(v, x, t, tr) {
+        Outcome::Pass { nontrivial, class } => Outcome::Pass { nontrivial, class: format!("{class}|chosen={chosen}") },
+        o => o,
+    }
+}
+
+fn run_adaptive_rans_large(v: &str, x: &[u8], t: &[u8], tr: Train) -> Outcome {
+    let chosen = AdaptiveRans64Encoder::new().select_variant(x.len());
+    match run_adaptive_rans(v, x, t, tr) {
+        Outcome::Pass { nontrivial, class } => Outcome::Pass { nontrivial, class: format!("{class}|chosen={chosen}") },
+        o => o,
+    }
+}
+
 fn simd_tier(name: &str) -> HuffmanSimdTier {
     match name {
         "Avx2Bmi2" => HuffmanSimdTier::Avx2Bmi2,
@@ -868,8 +1041,20 @@ fn run_simd_huffman(v: &str, x: &[u8], t: &[u8], _tr: Train) -> Outcome {
         x,
         &feat,
         || {
-            let cfg = SimdHuffmanConfig { preferred_tier: simd_tier(v), ..SimdHuffmanConfig::default() };
-            let enc = SimdHuffmanEncoder::with_config(t, cfg).map_err(es)?;
+            let enc = match v {
+                // (coverage audit) the default constructor, and non-default batch/prefetch settings
+                "new()" => SimdHuffmanEncoder::new(t),
+                "Avx2/batch=7/noprefetch" => SimdHuffmanEncoder::with_config(
+                    t,
+                    SimdHuffmanConfig { preferred_tier: HuffmanSimdTier::Avx2, batch_size: 7, enable_prefetching: false, ..SimdHuffmanConfig::default() },
+                ),
+                "Avx2Bmi2/noprefetch" => SimdHuffmanEncoder::with_config(
+                    t,
+                    SimdHuffmanConfig { preferred_tier: HuffmanSimdTier::Avx2Bmi2, enable_prefetching: false, ..SimdHuffmanConfig::default() },
+                ),
+                _ => SimdHuffmanEncoder::with_config(t, SimdHuffmanConfig { preferred_tier: simd_tier(v), ..SimdHuffmanConfig::default() }),
+            }
+            .map_err(es)?;
             *got.borrow_mut() = format!("{:?}", enc.tier());
             let y = enc.encode(x).map_err(es)?;
             Ok((y, enc.tree().clone()))
@@ -916,7 +1101,22 @@ fn main() {
         let il = if q { def(3, &[N_IL], K3, SH_IL) } else { def(5, &[N_CTX_T], K3, SHAPES_ALL) };
         // O(n * min(n, 32768)) LZ search: n <= 1025 (quick) / 8193 (thorough)
         let lz = if q { def(4, &[N_LZ], K_SMALL, SH_LZ) } else { def(6, &[N_LZ, N_SMALL, N_THOROUGH_EXTRA], K_SMALL, SH_LZ) };
-        let lz_opt = if q { def(5, &[N_LZ, N_SMALL], K_SMALL, SH_LZ) } else { def(7, &[N_LZ, N_QUICK, N_THOROUGH_EXTRA], K_SMALL, SHAPES_ALL) };
+        // (coverage audit) + FarRepeat: the only match lies 32767 / 32768 / 32769 bytes back (window_size = 32768)
+        let mut sh_lz_opt: Vec<Sh> = if q { SH_LZ.to_vec() } else { SHAPES_ALL.to_vec() };
+        sh_lz_opt.push(Sh::FarRepeat);
+        let lz_opt = if q { def(5, &[N_LZ, N_SMALL], K_SMALL, &sh_lz_opt) } else { def(7, &[N_LZ, N_QUICK, N_THOROUGH_EXTRA], K_SMALL, &sh_lz_opt) };
+        // (coverage audit) the O(n * 32768) search of DictionaryCompressor on the same three inputs (1-2 s per case)
+        let lz_window = def(0, &[&[0]], &[1], &[Sh::FarRepeat]);
+        // (coverage audit) SimdHuffmanEncoder::encode switches strategy at 64 / 1024 / 8192 bytes: 8192 also in the quick tier
+        let huff_simd = if q { def(5, &[N_QUICK, &[8191, 8192, 8193]], K_FULL, SHAPES_ALL) } else { huff.clone() };
+        // (coverage audit) AdaptiveParallelEncoder::select_optimal_encoding: x2 -> x4 at 64 KiB, x4 -> x8 and the FSE
+        // branch at 1 MiB; AdaptiveRans64Encoder::select_variant: x4 -> x8 at 73^4 = 28 398 241 bytes
+        const N_64K: &[usize] = &[65535, 65536, 65537];
+        const N_1M: &[usize] = &[1048575, 1048576, 1048577];
+        const N_73P4: &[usize] = &[28398240, 28398241];
+        const SH_BIG: &[Sh] = &[Sh::Cyclic, Sh::Geometric, Sh::Noise, Sh::English, Sh::Zero];
+        let ap_large = if q { def(0, &[N_64K], &[2, 4, 256], SH_BIG) } else { def(0, &[N_64K, N_1M], &[2, 4, 256], SH_BIG) };
+        let ar_x8 = def(0, &[N_73P4], &[3, 256], &[Sh::Cyclic, Sh::Noise]);
         let all_tr = ALL_TRAIN.to_vec();
         let tr4 = vec![Train::Same, Train::Uniform, Train::MinusRarest, Train::English];
         let tr3 = vec![Train::Same, Train::Uniform, Train::MinusRarest];
@@ -924,7 +1124,7 @@ fn main() {
 
         reg.add(Enum(Family {
             name: "HuffmanEncoder/HuffmanDecoder",
-            variants: sv(&["new", "from_frequencies"]),
+            variants: sv(&["new", "from_frequencies", "new+serialize"]),
             trains: all_tr.clone(),
             space: full.clone(),
             run: run_huffman,
@@ -932,9 +1132,9 @@ fn main() {
         reg.add(Enum(Family {
             name: "ContextualHuffman",
             variants: if q {
-                sv(&["order0", "order1", "order2", "order2+serialize"])
+                sv(&["order0", "order1", "order2", "order2+serialize", "order1+serialize", "order0+serialize"])
             } else {
-                sv(&["order0", "order1", "order2", "order1+serialize", "order2+serialize"])
+                sv(&["order0", "order1", "order2", "order1+serialize", "order2+serialize", "order0+serialize"])
             },
             trains: if q { tr3.clone() } else { tr4.clone() },
             space: ctx.clone(),
@@ -942,7 +1142,7 @@ fn main() {
         }));
         reg.add(Enum(Family {
             name: "ContextualHuffman::encode_xN/decode_xN",
-            variants: sv(&["x1", "x2", "x4", "x8"]),
+            variants: sv(&["x1", "x2", "x4", "x8", "x2+serialize", "x8+serialize"]),
             trains: if q { tr3.clone() } else { tr4.clone() },
             space: il.clone(),
             run: run_interleaved,
@@ -967,6 +1167,8 @@ fn main() {
                 "encoder[balanced]",
                 "encoder[default]+object",
                 "encoder[high_compression/block=1024]",
+                "encoder[high_compression/block=128]",
+                "encoder[default/avx2=off]",
             ]),
             trains: same.clone(),
             space: full.clone(),
@@ -980,6 +1182,9 @@ fn main() {
                 "encoder[default/adaptive=false]+reused",
                 "encoder[default]+dict",
                 "encoder[fast_compression]+dict",
+                "encoder[default/adaptive=false]+analyzed",
+                "encoder[default]+reset",
+                "encoder[default/adaptive=false]+reset",
             ]),
             trains: vec![Train::Uniform, Train::Reversed, Train::MinusRarest, Train::English],
             space: huff.clone(),
@@ -998,6 +1203,13 @@ fn main() {
             trains: vec![Train::Same, Train::English],
             space: lz.clone(),
             run: run_dictionary,
+        }));
+        reg.add(Enum(Family {
+            name: "DictionaryCompressor/window",
+            variants: if q { sv(&["b[3,258,4096,32768]/c[3,258]"]) } else { sv(&["b[3,258,4096,32768]/c[3,258]", "b[3,258,4096,32768]/c[12,16]"]) },
+            trains: same.clone(),
+            space: lz_window.clone(),
+            run: run_dictionary_window,
         }));
         reg.add(Enum(Family {
             name: "OptimizedDictionaryCompressor",
@@ -1030,10 +1242,26 @@ fn main() {
         }));
         reg.add(Enum(Family {
             name: "SimdHuffmanEncoder",
-            variants: sv(&["Avx2Bmi2", "Avx2", "Sse42Bmi2", "Sse42", "Bmi2", "Scalar"]),
+            variants: sv(&["Avx2Bmi2", "Avx2", "Sse42Bmi2", "Sse42", "Bmi2", "Scalar", "new()", "Avx2/batch=7/noprefetch", "Avx2Bmi2/noprefetch"]),
             trains: tr4.clone(),
-            space: huff.clone(),
+            space: huff_simd.clone(),
             run: run_simd_huffman,
         }));
+        reg.add(Enum(Family {
+            name: "AdaptiveParallelEncoder/large",
+            variants: sv(&["encode_adaptive"]),
+            trains: same.clone(),
+            space: ap_large.clone(),
+            run: run_adaptive_parallel_large,
+        }));
+        if !q {
+            reg.add(Enum(Family {
+                name: "AdaptiveRans64Encoder/x8",
+                variants: sv(&["encode_adaptive"]),
+                trains: same.clone(),
+                space: ar_x8.clone(),
+                run: run_adaptive_rans_large,
+            }));
+        }
     });
 }
